@@ -126,7 +126,7 @@ def record_history(seed, nnodes, nsteps):
         w.new("a")
     fields = ("name", "kids", "ns", "content", "tail", "prefix", "attrs", "extras", "store")
     tr = {"init": w.pi(fields), "events": []}
-    prefixes, uris = ["x", "y", "z"], ["u", "u/", "U"]         # look-alike URIs: namespace names are compared as plain strings
+    prefixes, uris = ["x", "y", "z"], ["u", "u/", "U", ""]         # look-alike URIs: namespace names are compared as plain strings
     N = nnodes
 
     def listed(c):
